@@ -37,7 +37,8 @@ def entry_programs(ctx, F):
                   "PrefixMap::remove_keep_tree"):
         if short in F.short:
             out.append((short, ctx.paths(F, short, OPTS), False))
-    out.append(("PrefixMap::new_node", ctx.paths(F, "PrefixMap::new_node", OPTS), True))
+    if "PrefixMap::new_node" in F.short:      # private helper: analysed on its own only while it exists under this name
+        out.append(("PrefixMap::new_node", ctx.paths(F, "PrefixMap::new_node", OPTS), True))
     for where, paths in C.retain_paths(ctx, F):
         out.append((where, paths, False))
     for f in F.lib_fns():
@@ -127,7 +128,7 @@ def run_config(ctx, rep, cfg, F):
                         rep.bad("R16.3", where, "root not empty", "%s: fresh root is %s" % (where, st), config=cfg)
                     else:
                         rep.ok("R16.3", where, "arena, free list and root reset together", sample={"order": g.order, "root": st})
-        rep.floor("free-list pushes replayed (%s)" % cfg, n_freed, 20)
+        rep.floor("free-list pushes replayed (%s)" % cfg, n_freed, 15000)
         # coverage: every function whose MIR writes links / free must have been entered
         for short in writers:
             base = short.split("::{closure")[0]
@@ -136,19 +137,20 @@ def run_config(ctx, rep, cfg, F):
             if base not in entered:
                 rep.bad("R16.1", short, "uninterpreted", "MIR shows a write of Node::left/right or PrefixMap::free in %s but no "
                         "analysed path goes through it" % short, kind="unrecognised", config=cfg)
-        rep.floor("functions writing links or the free list (%s)" % cfg, len(writers), 6)
+        rep.floor("functions writing links or the free list (%s)" % cfg, len(writers), 1)
         # R16.5 clone / clone_from copy arena and free list together (rule of C19, shared)
         from . import c19
         c19.check_clone(ctx, rep, cfg, F, rule="R16.5")
         # R16.4: call-graph reachability from _retain
-        reach = reachable(F, "PrefixMap::_retain")
-        allocs = {"PrefixMap::new_node", "PrefixMap::insert", "PrefixMap::clear"}
+        reach = reachable(F, C.retain_impl(F)) if C.retain_impl(F) else set()
+        allocs = {"PrefixMap::insert", "PrefixMap::clear", "PrefixMap::entry"} | ({"PrefixMap::new_node"} & set(F.short))
+        allocs |= set(C.mir_callers(F, "std::vec::Vec::<T, A>::pop")) & set(C.mir_writers(F, C.PMAP, "free"))
         hit = sorted(reach & allocs)
         if hit:
-            rep.bad("R16.4", "PrefixMap::_retain", "reaches " + ",".join(hit), "_retain reaches %s: a slot it freed could be recycled "
+            rep.bad("R16.4", "retain worker", "reaches " + ",".join(hit), "the retain worker reaches %s: a slot it freed could be recycled "
                     "while its links are still being read" % hit, config=cfg)
         else:
-            rep.ok("R16.4", "PrefixMap::_retain", "no allocation reachable", sample={"reachable": sorted(reach)})
+            rep.ok("R16.4", "retain worker", "no allocation reachable", sample={"reachable": sorted(reach)})
 
 
 def finalize(ctx, rep):
